@@ -1,6 +1,11 @@
 import Qryn.Proofs.Faults
 import Qryn.Proofs.PreRequest
 import Qryn.Ingest.PreChains
+import Qryn.Proofs.IngestCensus
+import Qryn.Ingest.CtxChains
+import Qryn.Proofs.IngestParams
+import Qryn.Proofs.ParserRect
+import Qryn.Ingest.BuilderCallsReview
 /-! # C05 — no request body can crash or wedge the ingest side
 
 Property theorems only. Model: `Qryn.Ingest.Faults` — `ingest : Route → Doc → Outcome` over the decoded
@@ -635,5 +640,363 @@ example : ∃ ops, chainOps extraMiddlewareDefault [("cfg.ExtraMiddleware", []),
     exec ops [true] [] = .rejected ∧ (∃ c, exec ops [] [] = .completed c) := ⟨_, rfl, by decide, ⟨_, rfl⟩⟩
 
 end PreChains
+
+/-! ## The typed fault-site census of the ingest side (`Gen.IngestCensus`, review in `Ingest/FaultCensusTable.lean`)
+
+Until now the fault sites of `Qryn.Ingest.Faults` were placed by hand and tied to the source through hashes of function
+bodies. The census replaces that tie: it is regenerated with go/types on every run and lists EVERY goroutine of the
+ingest side with every instruction of the module that can panic on its stack. -/
+
+section Census
+open Qryn.IngestCensus
+open Qryn.Gen (IngestCensus.functions IngestCensus.goroutines IngestCensus.externsUnion IngestCensus.excludedPackages)
+
+/-- **ingest_fault_site_census.** `Gen.IngestCensus` lists, for the HTTP handler and for every `go` statement under
+    writer/ (the three parser goroutines, the PreParse error sender, the drain goroutine of `doParse`, the `doPush`
+    goroutines, the insert-service loops, the watchdog, the cache sweeper, the statistics / logger / metrics helpers),
+    the functions of the module that can run on its stack — static calls, interface calls resolved to every implementing
+    type, calls through function values — and in each of them every index, slice, store, nil-map write, assertion
+    without `ok`, integer division, signed shift, non-constant `make`, dereference of a pointer that comes from a
+    decoder or a lookup, conversion, `panic`, send, close and unresolved dynamic call. The theorem says that this
+    regenerated list is EXACTLY the reviewed one (same functions, same sites, same order), that every classification
+    which cites a dominating condition finds that condition at the site, that the library calls on these stacks (the
+    boundary of the census) are exactly the reviewed ones, and that the only package left out is the one that does not
+    compile. A new or re-worded fault site, a lost guard, a new function with a site becoming reachable, a new library
+    call: each breaks this theorem until someone has looked. -/
+theorem ingest_fault_site_census :
+    genShape IngestCensus.functions = revShape reviewed ∧
+    backedAll IngestCensus.functions reviewed = true ∧
+    IngestCensus.externsUnion = reviewedExterns.map (·.name) ∧
+    IngestCensus.excludedPackages = reviewedExcluded :=
+  ⟨census_checked, guards_checked, externs_checked, excluded_checked⟩
+
+/-- **placed_sites_are_the_census.** The fault sites the model `Qryn.Ingest.Faults` carries (`modelSites`) are exactly the
+    sites of the census classified "can fault" (`.placed`, incl. the one library call that stands for a placed site):
+    nothing is placed that the source does not have, and a faulting expression of the source that is neither
+    classified as harmless (with a checked reason) nor in the model cannot exist. -/
+theorem placed_sites_are_the_census : citedSites = sortDedup (modelSites.map (·.id)) := placed_checked
+
+/-- **placed_sites_run_recovered.** Every placed site runs only on goroutines that catch its panic the way the model
+    says: the parser-goroutine sites under `defer p.tamePanic()` (→ one error response, one close, 500), the
+    `ColFixedStr.Append` size check under the deferred recover of the `doPush` goroutine (→ promise resolved with an
+    error, 500). In particular NO site that can fault on input runs on a goroutine without a recover (the insert loops,
+    the watchdog, the drain goroutines: a panic there would end the process) or on the HTTP handler goroutine (whose
+    net/http recover would drop the connection without a status). -/
+theorem placed_sites_run_recovered :
+    (∀ g ∈ IngestCensus.goroutines, rootOk g = true) ∧
+    (∀ g ∈ IngestCensus.goroutines, g.2.2.1 = "" ∨ g.2.2.1 = "net/http" → rootPlaced g = []) := by
+  refine ⟨fun g hg => (List.all_eq_true.mp roots_checked) g hg, ?_⟩
+  have h : IngestCensus.goroutines.all (fun g => !(g.2.2.1 == "" || g.2.2.1 == "net/http") || (rootPlaced g).isEmpty) = true := by
+    decide +kernel
+  intro g hg hr
+  have := (List.all_eq_true.mp h) g hg
+  rcases hr with hr | hr <;> simp [hr] at this <;> exact this
+
+/-- the goroutines of the ingest side, with the way each catches a panic — a new `go` statement, or a recover that
+    disappears, changes this list -/
+theorem ingest_goroutine_inventory :
+    IngestCensus.goroutines.map (fun g => (g.1, g.2.2.1)) =
+      [("controller/builder.go:Build$handler", "net/http"),
+       ("main_dev.go:Init#1", ""),
+       ("controller/builder.go:doPush#1", "literal"),
+       ("controller/builder.go:doParse#1", ""),
+       ("metric/metric.go:Metric.Run#1", ""),
+       ("metric/metric.go:Metric.Run#2", ""),
+       ("plugin/qryn_writer_db.go:QrynWriterPlugin.CreateStaticServiceRegistry#1", ""),
+       ("plugin/qryn_writer_db.go:QrynWriterPlugin.CreateStaticServiceRegistry#2", ""),
+       ("plugin/qryn_writer_db.go:QrynWriterPlugin.CreateStaticServiceRegistry#3", ""),
+       ("plugin/qryn_writer_db.go:QrynWriterPlugin.CreateStaticServiceRegistry#4", ""),
+       ("plugin/qryn_writer_db.go:QrynWriterPlugin.CreateStaticServiceRegistry#5", ""),
+       ("plugin/qryn_writer_db.go:QrynWriterPlugin.CreateStaticServiceRegistry#6", ""),
+       ("plugin/utils.go:QrynWriterPlugin.logCHSetup#1", ""),
+       ("service/genericInsertService.go:InsertServiceV2RoundRobin.Run#1", ""),
+       ("service/genericInsertService.go:InsertServiceV2Multimodal.Run#1", ""),
+       ("service/genericInsertService.go:InsertServiceV2Multimodal.Run#2", ""),
+       ("utils/logger/logger.go:qrynFormatter.Run#1", ""),
+       ("utils/logger/logger.go:qrynFormatter.Run#2", ""),
+       ("utils/numbercache/cache.go:NewCache#1", ""),
+       ("utils/unmarshal/builder.go:parserDoer.Do#1", ""),
+       ("utils/unmarshal/builder.go:parserDoer.doParseProfile#1", "tamePanic"),
+       ("utils/unmarshal/builder.go:parserDoer.doParseLogs#1", "tamePanic"),
+       ("utils/unmarshal/builder.go:parserDoer.doParseSpans#1", "tamePanic"),
+       ("watchdog/watchdog.go:Init#1", "")] := by rfl
+
+/-- **model_sites_fault.** Each placed site is a primitive of the model that does raise a fault for some arguments
+    (so the list `modelSites` is not about an empty set of behaviours), and the two sites the fix commits guarded no
+    longer do: `fastFillArray(0)`, `name[i+1:length-1]`. -/
+theorem model_sites_fault :
+    labelPairs [[1]] = .error .indexOutOfRange ∧
+    markTypes [3] = .error .indexOutOfRange ∧
+    messageSizes [] 1 0 = .error .indexOutOfRange ∧
+    (fastFillArray pinned 0 = .error .indexOutOfRange ∧ fastFillArray fixed 0 = .ok 0) ∧
+    (∃ f, onSpan fixed flushThreshold .init ⟨16, 8, 2, 1, 0⟩ = .fault f) ∧
+    (∃ f, spanStep fixed flushThreshold .init (.derefRaw false) = .fault f) ∧
+    ((∃ f, profStep pinned flushThreshold ⟨0, []⟩ (.slice 4 4 3) = .fault f) ∧
+      profStep fixed flushThreshold ⟨0, []⟩ (.slice 4 4 3) = .err 500) ∧
+    (∃ f, profStep fixed flushThreshold ⟨0, []⟩ (.idxCheck 1 1) = .fault f) ∧
+    (∃ f, profStep fixed flushThreshold ⟨0, []⟩ (.derefRaw false) = .fault f) ∧
+    fixedStrAppend 16 0 3 = .error .badSize := by
+  refine ⟨rfl, rfl, rfl, ⟨rfl, rfl⟩, ⟨_, rfl⟩, ⟨_, rfl⟩, ⟨⟨_, rfl⟩, rfl⟩, ⟨_, rfl⟩, ⟨_, rfl⟩, rfl⟩
+
+example : modelSites.length = 10 := rfl
+example : reviewed.length = IngestCensus.functions.length := by rfl
+
+end Census
+
+/-! ## The request context of every handler chain, with the dynamic types regenerated (`Gen.CtxChains`) -/
+
+section CtxChains
+open Qryn.CtxChains
+open Qryn.Gen (CtxChains.chains CtxChains.assignable)
+
+/-- T: every generated chain passes the static check -/
+theorem ctx_chains_checked : allChainsSafe = true := by decide +kernel
+
+/-- **ctx_chains_typed.** For every handler constructor of writer/controller, both values of `cfg.ExtraMiddleware`,
+    every parser the Content-Type can select — 30 chains, each running through the pre-request middlewares, `doParse`
+    (`getBodyStream`, `getService`, `Value("node").(string)`), the PreParse steps of the selected parser
+    (`withStringValueFromCtx`), `doParseLogs` (`META`, `TTL_DAYS`) and the decoder's `Decode`
+    (`Value("precision").(time.Duration)` of the influx decoder, on the parser goroutine) — and every combination of
+    steps that return an error: no type assertion on a context value fails. Every bare assertion finds, EARLIER IN THE
+    SAME CHAIN, a `context.WithValue` of its key whose value has the asserted type (or a type implementing the asserted
+    interface); every nil-guarded one finds either nothing or a value of the right type. Keys, types and order are all
+    regenerated (go/types); nothing is placed by hand. -/
+theorem ctx_chains_typed :
+    ∀ c ∈ CtxChains.chains, ∀ fails, exec CtxChains.assignable (chainOps c) fails [] ≠ .fault := by
+  intro c hc fails
+  have h := (List.all_eq_true.mp ctx_chains_checked) c hc
+  exact safe_sound _ _ [] h fails
+
+/-- what the discipline is for: the influx decoder behind the pre-request steps of the Loki push handler (no
+    `?precision=` step) would panic in `Decode` — a key stored only by another chain does not help -/
+theorem ctx_foreign_chain_faults :
+    exec CtxChains.assignable
+      [.store "DSN" "string", .assert "DSN" "string", .store "node" "string", .assert "node" "string",
+       .assert "precision" "time.Duration"] [] [] = .fault := by decide
+
+/-- … and a value of another type under the right key does not help either -/
+theorem ctx_wrong_type_faults :
+    exec CtxChains.assignable [.store "TTL_DAYS" "int", .assertNil "TTL_DAYS" "uint16"] [] [] = .fault := by decide
+
+/-- non-vacuity: the chains do contain bare assertions — every chain asserts `node`, the influx chain `precision` -/
+theorem ctx_chains_have_bare_assertions :
+    CtxChains.chains.length = 30 ∧
+    (CtxChains.chains.all fun c => (bareAsserts c).contains ("node", "string")) = true ∧
+    (CtxChains.chains.any fun c => (bareAsserts c).contains ("precision", "time.Duration")) = true := by
+  refine ⟨by rfl, by decide +kernel, by decide +kernel⟩
+
+/-- an observation the chains make visible (not a fault): `getRequestParams` reads `"params"` with the comma-ok form,
+    and NO chain stores that key — the only producer is in writer/http, which does not compile — so the Elastic
+    handlers always see an empty `target` / `id` -/
+theorem ctx_params_never_stored :
+    (CtxChains.chains.all fun c => (chainOps c).all fun o => match o with | .store k _ => k != "params" | _ => true) = true := by
+  decide +kernel
+
+end CtxChains
+
+/-! ## Headers and query parameters (`Gen.IngestParams`, model `Qryn.Ingest.IngestParams`) -/
+
+section Params
+open Qryn.IngestParams
+open Qryn.Gen (IngestParams.reads)
+
+/-- T: the headers and query parameters the ingest side reads are the reviewed ones — a new read needs a look at what
+    it does with a hostile value -/
+theorem param_inventory_pinned :
+    IngestParams.reads =
+      [("controllerv1.PushCfDatadogV2", "query", "ddsource"),
+       ("controllerv1.PushDatadogV2", "query", "ddsource"),
+       ("controllerv1.PushInfluxV2", "query", "precision"),
+       ("controllerv1.PushProfileV2", "query", "from"),
+       ("controllerv1.PushProfileV2", "query", "name"),
+       ("controllerv1.PushProfileV2", "query", "until"),
+       ("controllerv1.PusherCtx.DoParse", "header", "Content-Type"),
+       ("controllerv1.WithOverallContextMiddleware", "header", "Content-Encoding"),
+       ("controllerv1.WithOverallContextMiddleware", "header", "Content-Encoding"),
+       ("controllerv1.WithOverallContextMiddleware", "header", "X-CH-DSN"),
+       ("controllerv1.WithOverallContextMiddleware", "header", "X-Scope-Meta"),
+       ("controllerv1.WithOverallContextMiddleware", "header", "X-Ttl-Days"),
+       ("controllerv1.getAsyncMode", "header", "X-Async-Insert")] := by rfl
+
+/-- **header_params_total.** Whatever the request carries in `X-Ttl-Days`, `X-Async-Insert`, `?precision=`,
+    `?ddsource=`: the value the handler stores is one of a fixed range — a TTL below 65536 (an unparsable, negative,
+    signed, blank-padded, underscored or too large number is ignored: TTL 0), an insert mode in {1, 2, 3} (`"0"` sync,
+    `"1"` async, anything else the default), a precision in {ns, us, ms, s} or the status 400, a non-empty `ddsource`.
+    No value raises a fault; the only one that rejects is an unknown precision. -/
+theorem header_params_total (ttl async prec dd : String) :
+    ttlDays ttl < 65536 ∧
+    (asyncMode async = 2 ∧ async = "0" ∨ asyncMode async = 3 ∧ async = "1" ∨ asyncMode async = 1 ∧ async ≠ "0" ∧ async ≠ "1") ∧
+    ((∃ n ∈ [1, 1000, 1000000, 1000000000], precision prec = .ok n) ∨
+      (precision prec = .error 400 ∧ prec ≠ "" ∧ prec ≠ "ns" ∧ prec ≠ "us" ∧ prec ≠ "ms" ∧ prec ≠ "s")) ∧
+    ddsource dd ≠ "" := by
+  refine ⟨ttlDays_lt ttl, asyncMode_cases async, ?_, ?_⟩
+  · rcases precision_cases prec with h | h | h | h | h
+    · exact Or.inl ⟨1, by simp, h.1⟩
+    · exact Or.inl ⟨1000, by simp, h.1⟩
+    · exact Or.inl ⟨1000000, by simp, h.1⟩
+    · exact Or.inl ⟨1000000000, by simp, h.1⟩
+    · exact Or.inr h
+  · unfold ddsource
+    split
+    · decide
+    · assumption
+
+/-- what `strconv.ParseUint(s, 10, 16)` + `if err == nil` make of some hostile values -/
+theorem ttl_examples :
+    ttlDays "" = 0 ∧ ttlDays "7" = 7 ∧ ttlDays "007" = 7 ∧ ttlDays "65535" = 65535 ∧ ttlDays "65536" = 0 ∧
+    ttlDays "-1" = 0 ∧ ttlDays "+1" = 0 ∧ ttlDays " 5" = 0 ∧ ttlDays "1_0" = 0 ∧ ttlDays "0x10" = 0 ∧
+    ttlDays "99999999999999999999999999" = 0 := by decide
+
+/-- **parser_selection_total.** `DoParse` walks the parsers of a handler in the order Go's map iteration happens to
+    produce. For every handler of the source the Content-Type prefixes of its parsers are prefix-free, hence for every
+    Content-Type and EVERY order of the walk the same parser is selected: the one whose key is a prefix of the header,
+    else the `*` parser, else the request is answered 400 — never an arbitrary one of two, never a fault. -/
+theorem parser_selection_total :
+    ∀ h ∈ handlerNames, ∀ order, (parserKeys h).Perm order → ∀ ct,
+      selectParser order ct = selectParser (parserKeys h) ct ∧
+      ((∃ k ∈ parserKeys h, selectParser (parserKeys h) ct = .ok k) ∨ selectParser (parserKeys h) ct = .error 400) := by
+  intro h hh order hp ct
+  have hf : prefixFree (parserKeys h) = true := (List.all_eq_true.mp all_handlers_prefix_free) h hh
+  refine ⟨selectParser_perm _ _ hf hp ct, ?_⟩
+  unfold selectParser
+  cases hfd : (parserKeys h).find? (hasPrefix ct) with
+  | some k => exact Or.inl ⟨k, List.mem_of_find?_eq_some hfd, rfl⟩
+  | none =>
+    simp only
+    split
+    · rename_i hc
+      exact Or.inl ⟨"*", by simpa using hc, rfl⟩
+    · exact Or.inr rfl
+
+/-- with two overlapping keys the walk order WOULD matter — what `prefixFree` excludes -/
+theorem parser_selection_counterexample :
+    selectParser ["application/json", "application"] "application/json" = .ok "application/json" ∧
+      selectParser ["application", "application/json"] "application/json" = .ok "application" := ⟨by rfl, by rfl⟩
+
+/-- the pyroscope route: each of `from`, `name`, `until` must be non-empty, otherwise 500 before any parsing -/
+theorem profile_params_total (get : String → String) :
+    profileParams get = .ok () ∧ get "from" ≠ "" ∧ get "name" ≠ "" ∧ get "until" ≠ "" ∨
+    profileParams get = .error 500 ∧ (get "from" = "" ∨ get "name" = "" ∨ get "until" = "") := by
+  unfold profileParams
+  have hr : Qryn.Gen.IngestParams.profileRequired = ["from", "name", "until"] := rfl
+  rw [hr]
+  by_cases h1 : get "from" = ""
+  · right; simp [h1]
+  · by_cases h2 : get "name" = ""
+    · right; simp [h2]
+    · by_cases h3 : get "until" = ""
+      · right; simp [h3]
+      · left; simp [h1, h2, h3]
+
+end Params
+
+/-! ## What the parser goroutines send is rectangular — every decoder, every builder, whole and cut-short decodes
+
+Premise of C02 (`process_rect`: a rectangular request keeps the shared columns rectangular; `block_rect`).
+Models: C03's decoders (`Wire*.lean`, proved equal to an independent specification reading and compared with the real
+decoders on real bytes) in the form that keeps what was issued before an error (`Ingest/ParserRect.lean`, proved to
+agree with C03's form on success), C03's builder `onEntries`, and column-level models of `onSpan` / `onProfile`. -/
+
+section ParserRect
+open Qryn.Ingest Qryn.Ingest.Wire Qryn.ParserRect
+
+/-- T: the calls of the builder callbacks, the statements that grow their array arguments and the appends of the builder
+    callbacks are the ones the models were read against (`BuilderCallsReview.callRect` says, call site by call site,
+    which model stands for it and why its arrays have one length) -/
+theorem builder_calls_pinned :
+    Qryn.Gen.BuilderCalls.calls = Qryn.BuilderCallsPinned.calls ∧
+    Qryn.Gen.BuilderCalls.argWrites = Qryn.BuilderCallsPinned.argWrites ∧
+    Qryn.Gen.BuilderCalls.builderWrites = Qryn.BuilderCallsPinned.builderWrites ∧
+    Qryn.Gen.BuilderCalls.calls.map (fun c => (c.1, c.2.1)) = Qryn.BuilderCallsReview.callRect.map (fun c => (c.fn, c.handler)) :=
+  ⟨by rfl, by rfl, by rfl, by rfl⟩
+
+/-- the `…Issued` decoders are C03's decoders: they end without error exactly when `…Decode` returns calls, and then
+    with the same calls (so everything C03 proves and compares about `…Decode` is about them) -/
+theorem issued_agrees_with_decode (scan : Bytes → List Tok) (tagsOf : Bytes → Labels) (now : Int) :
+    (∀ j, lokiJsonDecode scan j = asOption (lokiJsonIssued scan j)) ∧
+    (∀ d, lokiProtoDecode scan d = asOption (lokiProtoIssued scan d)) ∧
+    (∀ ms, influxDecode ms = asOption (influxIssued ms)) ∧
+    (∀ j, ddLogsDecode tagsOf now j = asOption (ddLogsIssued tagsOf now j)) ∧
+    (∀ j, ddSeriesDecode now j = asOption (ddSeriesIssued now j)) :=
+  ⟨lokiJsonIssued_agrees scan, lokiProtoIssued_agrees scan, influxIssued_agrees, ddLogsIssued_agrees tagsOf now,
+   ddSeriesIssued_agrees now⟩
+
+/-- **parser_rect_logs.** Log and metric parsers — Loki JSON, Loki protobuf, Prometheus remote write, Influx line
+    protocol, OTLP logs, Datadog logs, Datadog series, and the one-entry-per-line decoders (Elastic `_doc`, Elastic
+    `_bulk`, Datadog/Cloudflare): for every body (every JSON tree, protobuf message, metric list, with duplicate and
+    missing members, wrong kinds, unparsable label texts …), every flush test (every chunking), every fingerprint
+    function and request TTL, whether the decode ends well or with an error after any number of streams: `onEntries`
+    never faults and EVERY samples request the goroutine put on the channel — the chunks flushed on the way and, after a
+    successful decode, the final one — has its six per-row arrays (timestamp, fingerprint, message, value, TTL, type)
+    of one length. (The series request is rectangular by construction: `onEntries` appends its five columns together,
+    one row at a time — `builder_calls_pinned`.) -/
+theorem parser_rect_logs (env : Qryn.Ingest.Env) (scan : Bytes → List Tok) (tagsOf : Bytes → Labels) (now : Int) (hit : Nat → Bool) :
+    (∀ j, ∃ chunks, sent env (lokiJsonIssued scan j) = some chunks ∧ ∀ ch ∈ chunks, ch.spl.Rect) ∧
+    (∀ d, ∃ chunks, sent env (lokiProtoIssued scan d) = some chunks ∧ ∀ ch ∈ chunks, ch.spl.Rect) ∧
+    (∀ d, ∃ chunks, sent env (decodeProm hit d, true) = some chunks ∧ ∀ ch ∈ chunks, ch.spl.Rect) ∧
+    (∀ ms, ∃ chunks, sent env (influxIssued ms) = some chunks ∧ ∀ ch ∈ chunks, ch.spl.Rect) ∧
+    (∀ d, ∃ chunks, sent env (otlpDecode d, true) = some chunks ∧ ∀ ch ∈ chunks, ch.spl.Rect) ∧
+    (∀ j, ∃ chunks, sent env (ddLogsIssued tagsOf now j) = some chunks ∧ ∀ ch ∈ chunks, ch.spl.Rect) ∧
+    (∀ j, ∃ chunks, sent env (ddSeriesIssued now j) = some chunks ∧ ∀ ch ∈ chunks, ch.spl.Rect) ∧
+    (∀ items, ∃ chunks, sent env (linesIssued items) = some chunks ∧ ∀ ch ∈ chunks, ch.spl.Rect) := by
+  refine ⟨fun j => sent_rect env _ (lokiJsonIssued_WF scan j), fun d => sent_rect env _ (lokiProtoIssued_WF scan d),
+    fun d => sent_rect env _ (promSeriesList_WF hit d 0), fun ms => sent_rect env _ (influxIssued_WF ms),
+    fun d => sent_rect env _ ?_, fun j => sent_rect env _ (ddLogsIssued_WF tagsOf now j),
+    fun j => sent_rect env _ (ddSeriesIssued_WF now j), fun items => sent_rect env _ (linesIssued_WF items)⟩
+  exact (Body.calls_spec env hit now (.otlp (otlpOfWire d))).1
+
+/-- the rule the decoders rely on, for ANY decoder: as long as every call passes four arrays of one length (and types
+    below 3), whatever is sent is rectangular — and a call that does not is not appended half: `onEntries` panics in
+    `message[i]` (tamed: error response, close) when the messages are the shorter array; when they are the LONGER one
+    nothing panics and the request IS ragged, which is why the premise is proved decoder by decoder (and pinned call
+    site by call site) -/
+theorem parser_rect_any_decoder (env : Qryn.Ingest.Env) (r : List Call × Bool) (h : ∀ c ∈ r.1, c.WF) :
+    ∃ chunks, sent env r = some chunks ∧ ∀ ch ∈ chunks, ch.spl.Rect := sent_rect env r h
+
+/-- the remote-write tail flush of the seeded change (messages and types kept at the length of the whole series after
+    a flush inside the series): not well formed, no panic, and the chunk it ends up in is ragged — what
+    `parser_rect_logs` excludes for the decoders as they are -/
+theorem ragged_call_counterexample :
+    let env : Qryn.Ingest.Env := ⟨fun _ => 0, fun _ => 0, fun _ => false, 26, 14, 0⟩
+    let bad : Call := ⟨[], [1], [[], []], [0], [2, 2]⟩
+    ∃ chunks, sent env ([bad], true) = some chunks ∧ ∃ ch ∈ chunks, ¬ ch.spl.Rect := by
+  refine ⟨_, rfl, _, List.mem_singleton.mpr rfl, ?_⟩
+  intro h
+  exact absurd h.2.1 (by decide)
+
+/-- **parser_rect_spans.** Span parsers (Zipkin JSON, Zipkin NDJSON, OTLP): for every sequence of `onSpan` calls —
+    any ids, any keys, any values, `val` shorter or longer than `key` — every flush test, a decode that ends well or
+    not: every `SpansRequest` (nine columns) and `SpansAttrsRequest` (seven columns) put on the channel is rectangular.
+    A span with fewer values than keys makes `onSpan` panic at `val[i]` with the columns of that row half appended —
+    and then nothing more is sent (`spansSent` ends; `tamePanic` answers 500). -/
+theorem parser_rect_spans (flush : Nat → Bool) (ptype : Int) (calls : List SpanArgs) (decodeOk : Bool) :
+    ∀ p ∈ spansSent flush ptype {} calls decodeOk, p.1.Rect ∧ p.2.Rect :=
+  spansSent_rect flush ptype calls decodeOk {} SpanSt.init_rect
+
+/-- the state a fault in `onSpan` leaves behind IS ragged (key column one longer than the value column): that it is
+    never sent is what keeps the shared batch whole -/
+theorem span_fault_state_ragged :
+    ∃ st, onSpanCols (fun _ => false) 1 {}
+        ⟨List.replicate 16 0, List.replicate 8 0, 0, 0, [], [], [], [], [[1], [2]], [[3]]⟩ = .fault st ∧
+      st.attrs.key.length = 2 ∧ st.attrs.val.length = 1 ∧
+      spansSent (fun _ => false) 1 {}
+        [⟨List.replicate 16 0, List.replicate 8 0, 0, 0, [], [], [], [], [[1], [2]], [[3]]⟩] true = [] :=
+  ⟨_, rfl, rfl, rfl, rfl⟩
+
+/-- **parser_rect_profiles.** Profile parsers (multipart and binary pprof): for every sequence of `onProfile` calls,
+    every size test, a decode that ends well or not: every `ProfileRequest` put on the channel has its eight per-row
+    columns of one length (the five array-valued fields are assigned whole). -/
+theorem parser_rect_profiles (big : Qryn.ParserRect.ProfCols → Bool) (calls : List Qryn.ParserRect.ProfArgs) (decodeOk : Bool) :
+    ∀ p ∈ profilesSent big {} calls decodeOk, p.Rect :=
+  profilesSent_rect big calls decodeOk {} ⟨rfl, rfl, rfl, rfl, rfl, rfl, rfl⟩
+
+/-- non-vacuity: a decode that fails after two streams has issued — and sent, with a flush test that always fires — both -/
+example :
+    (lokiProtoIssued (fun b => if b = [1] then [.ch 123, .ident [97], .ch 61, .str (some [98]), .ch 125] else [])
+      [⟨[1], [⟨1, 2, [120]⟩]⟩, ⟨[1], []⟩, ⟨[2], []⟩]).2 = false ∧
+    (lokiProtoIssued (fun b => if b = [1] then [.ch 123, .ident [97], .ch 61, .str (some [98]), .ch 125] else [])
+      [⟨[1], [⟨1, 2, [120]⟩]⟩, ⟨[1], []⟩, ⟨[2], []⟩]).1.length = 2 := by decide
+
+end ParserRect
 
 end Qryn.C05
